@@ -58,7 +58,19 @@ def told_events(arg):
         w.spawn("S", "S", ["-f", "-4", "-P", "pw", "%s/%d" % (srv, mask), "t.example.com"])
         w.run_until(t=w.now + 1000)
         got = []
-        for u in range(16):
+        # requests that must not create a session: version requests with another protocol version, a truncated one
+        noise = [0, 1, 3, 17][k % 4]
+        for j in range(noise):
+            src = ("10.9.3.%d" % (j + 1), 5400 + j)
+            w.endpoints[src] = lambda wd, serial, s, d, data: None
+            name = proto.q_version(900 + j, version=[0x00000501, 0x00000503, 0, 0xFFFFFFFF, 0x02050000][j % 5]) if j % 6 != 5 \
+                else proto.q_version(900 + j)[:4]
+            w.send(src, (W.SERVER_IP, 53), D.build_query(900 + j, proto.qname(name, "t.example.com"), D.T_NULL, edns=False),
+                   "noise")
+            w.run_until(t=w.now + 3000)
+        created = 0
+        toldset = set()
+        for u in range(17):
             src = ("10.9.2.%d" % (u + 1), 5300 + u)
             w.endpoints[src] = lambda wd, serial, s, d, data: got.append(data)
             del got[:]
@@ -70,6 +82,7 @@ def told_events(arg):
                 break
             seed = int.from_bytes(pl[4:8], "big", signed=True)
             uid = pl[8]
+            created += 1
             del got[:]
             w.send(src, (W.SERVER_IP, 53), D.build_query(200 + u, proto.qname(proto.q_login(uid, proto.login_hash(b"pw", seed), u),
                                                                              "t.example.com"), D.T_NULL, edns=False), "peer")
@@ -81,8 +94,10 @@ def told_events(arg):
             us = [x for x in w.users() if x["u"] == uid]
             if len(f) != 4 or not us:
                 continue
+            toldset.add(f[1])
             evs.append({"e": "Told", "srv": quad(srv), "mask": mask, "slot": quad(us[0]["tunip"]), "told": quad(f[1]),
                         "toldsrv": quad(f[0]), "text": pl.decode("latin-1")})
+        evs.append({"e": "Capacity", "mask": mask, "created": created, "told": len(toldset), "noise": noise})
     except (W.KernelDied, W.KernelHang):
         pass
     finally:
